@@ -28,14 +28,15 @@ import os, json, concurrent.futures as cf
 import vf
 
 SPECDIR = os.path.join(vf.SPEC, "http")
-DEV_ACTIONS = ["DevRespOutOfOrder", "DevCloseOvertakes"]
+DEV_ACTIONS = ["DevRespOutOfOrder", "DevCloseOvertakes", "DevCloseTruncates"]
 SIGNATURES = {"DevRespOutOfOrder": {"spec": "HttpPipelineTrace", "deviation_action": "DevRespOutOfOrder", "args": {"order": "handler_completion"}},
-              "DevCloseOvertakes": {"spec": "HttpPipelineTrace", "deviation_action": "DevCloseOvertakes", "args": {"close": "before_earlier_responses"}}}
+              "DevCloseOvertakes": {"spec": "HttpPipelineTrace", "deviation_action": "DevCloseOvertakes", "args": {"close": "before_earlier_responses"}},
+              "DevCloseTruncates": {"spec": "HttpPipelineTrace", "deviation_action": "DevCloseTruncates", "args": {"response": "large_body_still_queued"}}}
 
 V_QUICK = [("G", 5, False), ("G", 0, False), ("G", 5, True), ("H", 5, False), ("P", 3, False), ("C", 3, False),
            ("T", 0, False), ("R", 3, False), ("N", 0, False), ("M", 0, False), ("O", 0, False), ("B", 1, False),
            ("B", 3, False), ("U", 1, False), ("U", 2, False), ("U", 4, False), ("U", 5, False),
-           ("L", 64, False), ("L", 1024, False), ("L", 4096, False)]
+           ("L", 64, False), ("L", 1024, False), ("L", 4096, False), ("L", 4096, True)]
 V_MORE = [("H", 5, True), ("T", 0, True), ("N", 0, True), ("P", 3, True), ("B", 2, False), ("B", 4, False), ("U", 3, False),
           ("L", 1024, True)]
 # pipelines of three requests are drawn from this subset in the quick tier
@@ -46,11 +47,11 @@ METHOD = {"G": "GET", "H": "HEAD", "P": "POST", "C": "POST", "T": "GET", "R": "G
           "B": "GET", "U": "POST", "L": "GET"}
 
 
-def render_request(r, xid, delay_us=None):
+def render_request(r, xid, delay_us=None, hot=False):
     k, n, close = r["k"], r["n"], r["close"]
     fill = chr(ord("a") + xid % 10).encode()
     common = b"Host: x\r\nX-Id: %d\r\n" % xid + (b"Connection: close\r\n" if close else b"") + \
-        (b"X-Delay: %d\r\n" % delay_us if delay_us else b"")
+        (b"X-Delay: %d\r\n" % delay_us if delay_us else b"") + (b"X-Hot: 1\r\n" if hot else b"")
     if k == "L":
         return b"GET /big/%d HTTP/1.1\r\n" % n + common + b"\r\n"
     if k in ("G", "H"):
@@ -88,7 +89,7 @@ def render_request(r, xid, delay_us=None):
 def case_line(case, group, par, local, wait_ms):
     pipe = case["pipe"]
     delays = case.get("delays") or [None] * len(pipe)
-    stream = b"".join(render_request(r, local * 10 + i + 1, delays[i]) for i, r in enumerate(pipe))
+    stream = b"".join(render_request(r, local * 10 + i + 1, delays[i], -(i + 1) in case["order"]) for i, r in enumerate(pipe))
     specs = ",".join("%s:%d:%s" % (r["k"], r["n"], METHOD[r["k"]]) for r in pipe)
     return "%d %d %d %d %d %d | %s | %s | %s | %s" % (
         group, par, local, wait_ms, case["wantResp"], 1 if case["wantClose"] else 0,
@@ -96,7 +97,7 @@ def case_line(case, group, par, local, wait_ms):
         ",".join((["*"] if case.get("natural") else []) + [str(i) for i in case["order"]]))
 
 
-def mc(ck, name, variants, maxlen, devs=(), export=False, workers=3):
+def mc(ck, name, variants, maxlen, devs=(), export=False, workers=3, invs=None):
     d = os.path.join(ck.work, name)
     os.makedirs(d, exist_ok=True)
     with open(os.path.join(d, "MCPipe.tla"), "w") as f:
@@ -107,8 +108,9 @@ def mc(ck, name, variants, maxlen, devs=(), export=False, workers=3):
                                  "Dev_CompletionOrder": "Dev_CompletionOrder" in devs,
                                  "Dev_BadFramingWaits": "Dev_BadFramingWaits" in devs,
                                  "Dev_SplitSendUnlocked": "Dev_SplitSendUnlocked" in devs,
-                                 "Dev_ExtractOnlyFirst": "Dev_ExtractOnlyFirst" in devs},
-                 invariants=["InOrder", "AllAnswered", "NoInterleave"] + (["CaseOut"] if export else []))
+                                 "Dev_ExtractOnlyFirst": "Dev_ExtractOnlyFirst" in devs,
+                                 "Dev_CloseDropsQueued": "Dev_CloseDropsQueued" in devs},
+                 invariants=(invs or ["InOrder", "AllAnswered", "NoInterleave"]) + (["CaseOut"] if export else []))
     return vf.run_tlc(os.path.join(d, "MCPipe.tla"), cfg, tag="C16_" + name, workers=6 if export else 2, coverage=export,
                       lib_dirs=[SPECDIR], timeout=1500)
 
@@ -220,7 +222,7 @@ def judge(ck, cases, lines, out_path, name, retry=True):
     def validate_chunk(k):
         idxs = list(chunks2[k])
         rejected, devs = [], {}
-        for _ in range(40):
+        for _ in range(14):      # a handful of rejected executions per chunk is all the report needs
             if not idxs:
                 break
             p = os.path.join(ck.work, "%s.val%d.ndjson" % (name, k))
@@ -244,7 +246,8 @@ def judge(ck, cases, lines, out_path, name, retry=True):
                 line += n
             if x is None:
                 raise vf.Infra("cannot locate rejected line %d" % v.maxl)
-            rejected.append(idxs[x])
+            k_ev = v.maxl - line - 1
+            rejected.append((idxs[x], execs[idxs[x]][1][k_ev] if 0 <= k_ev < len(execs[idxs[x]][1]) else {"e": "?"}))
             idxs = idxs[:x] + idxs[x + 1:]
         # too many rejections in this chunk: what is left was not decided
         ck.undecided = getattr(ck, "undecided", 0) + len(idxs)
@@ -252,13 +255,14 @@ def judge(ck, cases, lines, out_path, name, retry=True):
 
     with cf.ThreadPoolExecutor(max_workers=8) as ex:
         results = list(ex.map(validate_chunk, range(n2))) if notabs else []
+    trace_tla = os.path.join(SPECDIR, "HttpPipelineTrace.tla")
     rejected, devs = [], {}
     for idxs, rej, dv in results:
         ck.traces += len(idxs)
         rejected += rej
         devs.update({i: dv[i] for i in idxs})
     if getattr(ck, "undecided", 0):
-        ck.note("%d executions left undecided after 40 rejections per chunk" % ck.undecided)
+        ck.note("%d executions left undecided after 14 rejections per chunk" % ck.undecided)
     ck.note("%s: %d executions: %d explained by the property, %d only with a deviation action, %d rejected" % (
         name, len(cases), len(cases) - len(notabs), len(devs), len(rejected)))
     # ---- deviations -> known findings (by signature) or violations
@@ -278,34 +282,93 @@ def judge(ck, cases, lines, out_path, name, retry=True):
         ck.dev_counts[a] = ck.dev_counts.get(a, 0) + len(idxs)
     # ---- rejections: re-run alone with long waits before reporting
     if rejected and retry:
-        rl = []
-        for n, i in enumerate(rejected):
-            f = lines[i].split(" | ")
-            w = f[0].split()
-            w[0], w[1], w[2], w[3] = str(n), "1", w[2], "6000"
-            f[0] = " ".join(w)
-            rl.append(" | ".join(f))
+        # Before anything is reported the case is run again, alone, with long waits.  A rejection that rests on a wait
+        # bound (a response / the close did not come) is re-run once; one that rests on octets that were on the wire
+        # (a response that fits no request, garbage between responses) may need a particular interleaving of the
+        # server's threads and is re-run up to 12 times.  Up to 4 cases of every kind are re-run, the others counted.
+        buckets = {}
+        for i, ev in rejected:
+            buckets.setdefault(explain(ev), []).append((i, ev))
+        chosen = []
+        for kind in sorted(buckets):
+            chosen += [(i, ev, kind) for i, ev in buckets[kind][:4]]
+        if len(chosen) < len(rejected):
+            ck.note("%d rejected executions; %d of them (up to 4 of every kind) are re-run: %s" % (
+                len(rejected), len(chosen), {k: len(v) for k, v in sorted(buckets.items())}))
+        rl, owner = [], []
+        for n, (i, ev, kind) in enumerate(chosen):
+            reps = 1 if soft(ev, cases[i]) else 12
+            for r in range(reps):
+                f = lines[i].split(" | ")
+                w = f[0].split()
+                w[0], w[1], w[3] = str(len(rl)), "1", "6000"
+                f[0] = " ".join(w)
+                rl.append(" | ".join(f))
+                owner.append(n)
         out2 = run_driver(ck, rl, name + ".rerun")
         ev2 = vf.split_executions(vf.read_ndjson(out2))
-        for n, i in enumerate(rejected):
-            p = os.path.join(ck.work, "%s.rr%d.ndjson" % (name, n))
+        if len(ev2) != len(rl):
+            raise vf.Infra("%s: re-run produced %d executions for %d cases" % (name, len(ev2), len(rl)))
+
+        def revalidate(m):
+            p = os.path.join(ck.work, "%s.rr%d.ndjson" % (name, m))
             with open(p, "w") as f:
-                for e in ev2[n][1]:
+                for e in ev2[m][1]:
                     f.write(json.dumps(e, separators=(",", ":")) + "\n")
                 f.write('{"e":"Reset"}\n')
-            v = vf.validate_trace(os.path.join(SPECDIR, "HttpPipelineTrace.tla"), cfg, p, tag="C16_rr_%s_%d" % (name, n))
+            return p, vf.validate_trace(trace_tla, cfg, p, tag="C16_rr_%s_%d" % (name, m))
+        with cf.ThreadPoolExecutor(max_workers=8) as ex:
+            rvs = list(ex.map(revalidate, range(len(rl))))
+        confirmed = {}
+        for m, (p, v) in enumerate(rvs):
             if v.error:
                 raise vf.Infra("trace validation error: " + v.error)
-            if v.accepted:
-                ck.note("rejection not repeated on re-run (ignored): " + describe(cases[i], execs[i][1]))
+            if not v.accepted and owner[m] not in confirmed:
+                confirmed[owner[m]] = (m, p, v)
+        per_kind = {}
+        for n, (i, ev, kind) in enumerate(chosen):
+            if n not in confirmed:
+                ck.note("rejection not repeated on re-run (ignored): %s - %s" % (kind, describe(cases[i], execs[i][1])))
                 continue
-            if len(ck.violations) < 10:
-                rp = ck.save_replay("%s_%d" % (name, i), {"case.txt": rl[n] + "\n", "trace.ndjson": p})
-                bad = ev2[n][1][min(v.maxl, len(ev2[n][1])) - 1] if ev2[n][1] else {}
-                ck.violation("connection behaviour not explainable by the property nor by a known deviation; first "
-                             "unmatched fact %s — %s" % (json.dumps(bad), describe(cases[i], ev2[n][1])), rp)
+            m, p, v = confirmed[n]
+            bad = ev2[m][1][min(v.maxl, len(ev2[m][1])) - 1] if ev2[m][1] else {}
+            per_kind[kind] = per_kind.get(kind, 0) + 1
+            if per_kind[kind] <= 3 and len(ck.violations) < 12:
+                rp = ck.save_replay("%s_%d" % (name, i), {"case.txt": rl[m] + "\n", "trace.ndjson": p})
+                ck.violation("%s; first fact that neither the property nor a known deviation explains: %s - %s" % (
+                    explain(bad), json.dumps(bad), describe(cases[i], ev2[m][1])), rp)
             else:
                 ck.more_violations = getattr(ck, "more_violations", 0) + 1
+        if confirmed:
+            ck.more_violations = getattr(ck, "more_violations", 0) + len(rejected) - len(chosen)
+
+
+GATED = ("G", "H", "P", "C", "T", "R", "L")
+
+
+def soft(ev, case):
+    """does the rejection rest on something that did NOT arrive within the wait bound (rather than on octets that did
+    arrive / a handler that was entered)?"""
+    if ev.get("e") != "End" or ev.get("garbage"):
+        return False
+    return all(1 <= i <= len(case["pipe"]) and case["pipe"][i - 1]["k"] in GATED for i in ev.get("invoked", []))
+
+
+def explain(ev):
+    """a human reading of the first unexplained fact (the verdict itself is TLC's)"""
+    if ev.get("e") == "Resp":
+        if ev.get("alien") or not ev.get("fill", True):
+            return "NoInterleave: the body of a response is not the octets its handler wrote (octets of another response inside / Content-Length is not the body that follows)"
+        return "a response on the wire is no well-formed response to any unanswered request (wrong status / length / duplicate / for an unparsable message)"
+    if ev.get("e") == "End":
+        if ev.get("garbage"):
+            return "NoInterleave: octets that are no response where a response must start (interleaved or mis-framed responses)"
+        if ev.get("left"):
+            return "an incomplete response was still on the wire when the wait ended"
+        if not ev.get("closed"):
+            return "AllAnswered: a complete request got neither a response nor a close within the wait bound (or the connection stayed open after a closing request)"
+        return "AllAnswered: the connection was closed with requests unanswered that no closing request explains, or a handler was entered for an unparsable request"
+    return "unexplained fact"
 
 
 def R(k, n=0, close=False):
@@ -316,8 +379,8 @@ def resp(for_, st, cl, bl=None, fill=True, alien=False):
     return {"e": "Resp", "for": for_, "st": st, "cl": cl, "bl": cl if bl is None else bl, "fill": fill, "alien": alien}
 
 
-def end(closed=False, left=0, garbage=False, invoked=()):
-    return {"e": "End", "closed": closed, "left": left, "garbage": garbage, "invoked": list(invoked)}
+def end(closed=False, left=0, garbage=False, invoked=(), pfor=0, pcl=-1, pgot=0):
+    return {"e": "End", "closed": closed, "left": left, "garbage": garbage, "invoked": list(invoked), "pfor": pfor, "pcl": pcl, "pgot": pgot}
 
 
 def self_test_trace(ck):
@@ -351,7 +414,13 @@ def self_test_trace(ck):
         "handler entered for a wrapped Content-Length": [{"e": "Begin", "reqs": [R("U", 4)]}, resp(1, 200, 3), end(closed=False, invoked=[1])],
         "handler entered, then closed": [{"e": "Begin", "reqs": [R("U", 5)]}, end(closed=True, invoked=[1])],
         "two responses for one unparsable message": [{"e": "Begin", "reqs": [R("U", 5)]}, resp(0, 400, 11), resp(0, 400, 11), end(closed=True)],
+        "small response cut by the close": [{"e": "Begin", "reqs": [R("G", 5, True)]}, rel(1), end(closed=True, left=90, invoked=[1], pfor=1, pcl=5, pgot=2)],
+        "large response cut, connection left open": [{"e": "Begin", "reqs": [R("L", 4096)]}, rel(1),
+                                                     end(closed=False, left=300000, invoked=[1], pfor=1, pcl=4194304, pgot=299900)],
+        "large response cut by a close nobody asked for": [{"e": "Begin", "reqs": [R("L", 4096)]}, rel(1),
+                                                           end(closed=True, left=300000, invoked=[1], pfor=1, pcl=4194304, pgot=299900)],
     }
+    trunc = [{"e": "Begin", "reqs": [R("L", 4096, True)]}, rel(1), end(closed=True, left=300000, invoked=[1], pfor=1, pcl=4194304, pgot=299900)]
 
     def val(tag, evs, cfg):
         p = os.path.join(ck.work, "selftest_%s.ndjson" % "".join(ch if ch.isalnum() else "_" for ch in tag))
@@ -366,7 +435,8 @@ def self_test_trace(ck):
 
     jobs = [("good/" + k, evs, cfg_eval) for k, evs in good.items()] + [("good-strict/" + k, evs, cfg_strict) for k, evs in good.items()] + \
         [("bad/" + k, evs, cfg_dev) for k, evs in bad.items()] + \
-        [("order/eval", reversed_two, cfg_eval), ("order/strict", reversed_two, cfg_strict), ("order/dev", reversed_two, cfg_dev)]
+        [("order/eval", reversed_two, cfg_eval), ("order/strict", reversed_two, cfg_strict), ("order/dev", reversed_two, cfg_dev),
+         ("trunc/strict", trunc, cfg_strict), ("trunc/dev", trunc, cfg_dev)]
     with cf.ThreadPoolExecutor(max_workers=8) as ex:
         res = list(ex.map(lambda j: val(*j), jobs))
     for (tag, evs, cfg), v in zip(jobs, res):
@@ -380,6 +450,10 @@ def self_test_trace(ck):
             raise vf.Infra("self-test: the evaluation pass did not flag responses in reverse order")
         if tag == "order/strict" and v.accepted:
             raise vf.Infra("self-test: the strict HttpPipelineTrace accepted responses in reverse order")
+        if tag == "trunc/strict" and v.accepted:
+            raise vf.Infra("self-test: the strict HttpPipelineTrace accepted a truncated response")
+        if tag == "trunc/dev" and not (v.accepted and "DevCloseTruncates" in v.out):
+            raise vf.Infra("self-test: HttpPipelineTrace with DevCloseTruncates rejected a large response cut by its own close")
         if tag == "order/dev" and not (v.accepted and "DevRespOutOfOrder" in v.out):
             raise vf.Infra("self-test: HttpPipelineTrace with DevRespOutOfOrder rejected a reversed but well-formed execution")
     ck.note("trace specification self-test: %d conforming and %d corrupted synthetic executions decided as expected" % (len(good), len(bad)))
@@ -393,11 +467,17 @@ def run(ck):
     ck.rule = ("cases = terminal states of spec/http/HttpPipeline.tla: every pipeline of <= 3 requests over the request classes "
                "(handler with set_content, HEAD, POST echo with Content-Length / chunked body, throwing handler, raw body with "
                "manual Content-Length, 404, 405, OPTIONS, unparsable request line, undecidable length; with and without "
-               "Connection: close) x every order in which the gated handlers return; non-trivial = more than one request, or a "
-               "HEAD / chunked / throwing / raw / unparsable / closing request")
+               "Connection: close; large bodies of 64 KiB / 1 MiB / 4 MiB; Content-Length values that wrap modulo 2^64) x every "
+               "order in which the gated handlers return, including returns while a large response is between its write steps; "
+               "plus ungated natural repetitions of large + small pipelines with handler delays; non-trivial = more than one "
+               "request, or a HEAD / chunked / throwing / raw / large / unparsable / closing request")
     variants = V_QUICK + (V_MORE if thorough else [])
-    with cf.ThreadPoolExecutor(max_workers=8) as ex:
+    with cf.ThreadPoolExecutor(max_workers=10) as ex:
         fb = ex.submit(ck.make, "drv_httppipe")
+        fst = ex.submit(self_test_trace, ck)
+        fd3 = ex.submit(mc, ck, "dev_split", V_SMALL, 2, ("Dev_CompletionOrder", "Dev_SplitSendUnlocked"), False, 3, ["NoInterleave"])
+        fd4 = ex.submit(mc, ck, "dev_first", V_SMALL, 2, ("Dev_ExtractOnlyFirst",))
+        fd5 = ex.submit(mc, ck, "dev_trunc", V_SMALL + [("L", 1024, True)], 2, ("Dev_CloseDropsQueued",))
         f2 = ex.submit(mc, ck, "len2", variants, 2, (), True)
         f3 = ex.submit(mc, ck, "len3", variants if thorough else V_SMALL, 3, (), True)
         fd1 = ex.submit(mc, ck, "dev_order", V_SMALL, 2, ("Dev_CompletionOrder",))
@@ -405,6 +485,8 @@ def run(ck):
         fw = ex.submit(mc, ck, "workers1", V_SMALL, 3, (), False, 1)
         fb.result()
         r2, r3, rd1, rd2, rw = f2.result(), f3.result(), fd1.result(), fd2.result(), fw.result()
+        rd3, rd4, rd5 = fd3.result(), fd4.result(), fd5.result()
+        fst.result()
     for nm, r in (("len<=2", r2), ("len<=3", r3), ("one worker", rw)):
         if r.error:
             raise vf.Infra("TLC failed on HttpPipeline (%s): %s" % (nm, r.error))
@@ -416,15 +498,23 @@ def run(ck):
         if r.violated:
             rp = ck.save_replay("impl_spec", {"tlc.out": r.out})
             ck.violation("HttpPipeline.tla (sequenced design) violates %s" % r.violated, rp)
-    for a in ["IoExtract", "IoGiveUp", "Start", "FinishStep", "SendStep", "CloseStep"]:
+    for a in ["IoExtract", "IoGiveUp", "Start", "FinishStep", "SendStep", "SendHeadStep", "SendBodyStep", "CloseStep"]:
         if ck.cov.get(a, 0) == 0:
             raise vf.Infra("self-test: Impl action %s never taken" % a)
     if rd1.violated != "InOrder":
         raise vf.Infra("self-test: HttpPipeline with Dev_CompletionOrder should violate InOrder, got %r %s" % (rd1.violated, rd1.error))
     if rd2.violated != "AllAnswered":
         raise vf.Infra("self-test: HttpPipeline with Dev_BadFramingWaits should violate AllAnswered, got %r %s" % (rd2.violated, rd2.error))
-    ck.states += rd1.distinct + rd2.distinct
-    ck.transitions += rd1.generated + rd2.generated
+    if rd1.violated == "NoInterleave":
+        raise vf.Infra("self-test: completion-order sends alone must not violate NoInterleave")
+    if rd3.violated != "NoInterleave":
+        raise vf.Infra("self-test: HttpPipeline with Dev_SplitSendUnlocked should violate NoInterleave, got %r %s" % (rd3.violated, rd3.error))
+    if rd4.violated != "AllAnswered":
+        raise vf.Infra("self-test: HttpPipeline with Dev_ExtractOnlyFirst should violate AllAnswered, got %r %s" % (rd4.violated, rd4.error))
+    if rd5.violated != "AllAnswered":
+        raise vf.Infra("self-test: HttpPipeline with Dev_CloseDropsQueued should violate AllAnswered, got %r %s" % (rd5.violated, rd5.error))
+    ck.states += rd1.distinct + rd2.distinct + rd3.distinct + rd4.distinct + rd5.distinct
+    ck.transitions += rd1.generated + rd2.generated + rd3.generated + rd4.generated
     ck.exhaustive = True
     seen, cases = set(), []
     for c in cases_of(r2) + cases_of(r3):
@@ -434,16 +524,31 @@ def run(ck):
             cases.append(c)
     if len(cases) < 100:
         raise vf.Infra("generator produced only %d cases" % len(cases))
-    for cls in ("U", "B", "H", "T", "C"):
+    for cls in ("U", "B", "H", "T", "C", "L"):
         if not any(any(r["k"] == cls for r in c["pipe"]) for c in cases):
             raise vf.Infra("generator produced no pipeline with request class " + cls)
     if not any(c["order"] != sorted(c["order"]) for c in cases):
         raise vf.Infra("generator produced no case whose handlers return out of request order")
+    if not any(any(i < 0 for i in c["order"]) for c in cases):
+        raise vf.Infra("generator produced no case in which a handler returns while a large response is being written")
+    for v in (4, 5):
+        if not any(any(r["k"] == "U" and r["n"] == v for r in c["pipe"]) for c in cases):
+            raise vf.Infra("generator produced no pipeline with a wrapping Content-Length (U%d)" % v)
+    # ---- natural runs: no gate, the small handlers return 0..max_us after they were entered, while the large response is
+    # being built and written; many repetitions
+    G5 = {"k": "G", "n": 5, "close": False}
+    nat = []
+    for kb, max_us, reps in ((4096, 15000, 300 if thorough else 36), (1024, 5000, 200 if thorough else 24), (64, 800, 100 if thorough else 12)):
+        for r in range(reps):
+            big = {"k": "L", "n": kb, "close": False}
+            pipe = [big, G5, G5] if r % 3 else [G5, big, G5]
+            nat.append({"pipe": pipe, "order": [1, 2, 3], "natural": True, "wantResp": 3, "wantClose": False,
+                        "delays": [ck.rng.randrange(1, max_us) if q["k"] == "G" else None for q in pipe]})
+    cases += nat
     # ---- one connection at a time: groups of sequential cases share a server
     per_group = 12
     lines = [case_line(c, i // per_group, 1, i % per_group, 1500) for i, c in enumerate(cases)]
     out_path = run_driver(ck, lines, "pipe")
-    self_test_trace(ck, cases, out_path)
     judge(ck, cases, lines, out_path, "pipe")
     # ---- many connections at once
     if thorough:
@@ -456,9 +561,11 @@ def run(ck):
         judge(ck, pick, lines2, out2, "many")
     ck.nontrivial = len(ck.nontrivial_keys)
     ck.note("deviation actions needed: %s" % ck.dev_counts)
-    for c in (cases[0], [c for c in cases if c["order"] != sorted(c["order"])][0], [c for c in cases if c["pipe"][-1]["k"] == "U"][-1]):
+    for c in (cases[0], [c for c in cases if c["order"] != sorted(c["order"])][0], [c for c in cases if c["pipe"][-1]["k"] == "U"][-1],
+              [c for c in cases if any(i < 0 for i in c["order"])][0], nat[0]):
         ck.sample({"pipeline": c["pipe"], "handlers_return_in_order": c["order"], "responses_expected": c["wantResp"],
-                   "close_expected": c["wantClose"], "bytes": case_line(c, 0, 1, 0, 0).split(" | ")[3][:160]})
+                   "close_expected": c["wantClose"], "natural_run_delays_us": c.get("delays"),
+                   "bytes": case_line(c, 0, 1, 0, 0).split(" | ")[3][:160]})
 
 
 def replay(ck, path):
@@ -469,7 +576,8 @@ def replay(ck, path):
     line = open(os.path.join(path, "case.txt")).read().strip()
     f = line.split(" | ")
     w = f[0].split()
-    case = {"pipe": json.loads(f[1]), "order": [int(x) for x in f[4].split(",") if x.strip()], "wantResp": int(w[4]), "wantClose": w[5] == "1"}
+    case = {"pipe": json.loads(f[1]), "order": [int(x) for x in f[4].split(",") if x.strip() and x.strip() != "*"],
+            "natural": "*" in f[4], "wantResp": int(w[4]), "wantClose": w[5] == "1"}
     out_path = run_driver(ck, [line], "replay")
     print(open(out_path).read())
     judge(ck, [case], [line], out_path, "replay")
